@@ -152,6 +152,47 @@ theorem gd_contraction_upper (f : E → ℝ) (g : E → E) (μ L γ : ℝ) (hμ 
   rw [hexp]
   exact contraction_scalar μ L γ a b c hμ.le hμL.le hγ (sq_nonneg _) h1 h2 h3
 
+/-- `n` gradient steps from `x` -/
+def gdIter (g : E → E) (γ : ℝ) : Nat → E → E
+  | 0, x => x
+  | n + 1, x => gdIter g γ n (x - γ • g x)
+
+/-- **the closed form of `tutorials.gradient_descent_contraction` (and of `proximal_gradient` with a
+zero non-smooth part) is an upper bound for every member and every number of steps**: `n` gradient steps
+contract squared distances by `max((1−γμ)², (1−γL)²)ⁿ` — the value `Ref.table` returns (`powN (fmax …) n`) -/
+theorem gd_contraction_n (f : E → ℝ) (g : E → E) (μ L γ : ℝ) (hμ : 0 < μ) (hμL : μ < L) (hγ : 0 ≤ γ)
+    (hconv : ∀ x y, f y ≥ f x + ⟪g x, y - x⟫ + μ / 2 * ‖y - x‖ ^ 2)
+    (hsm : ∀ x y, f y ≤ f x + ⟪g x, y - x⟫ + L / 2 * ‖y - x‖ ^ 2) (n : Nat) (x y : E) :
+    ‖gdIter g γ n x - gdIter g γ n y‖ ^ 2
+      ≤ max ((1 - γ * μ) ^ 2) ((1 - γ * L) ^ 2) ^ n * ‖x - y‖ ^ 2 := by
+  induction n generalizing x y with
+  | zero => simp [gdIter]
+  | succ n ih =>
+    have h1 := ih (x - γ • g x) (y - γ • g y)
+    have h2 := gd_contraction_upper f g μ L γ hμ hμL hγ hconv hsm x y
+    have hρ : 0 ≤ max ((1 - γ * μ) ^ 2) ((1 - γ * L) ^ 2) ^ n :=
+      pow_nonneg (le_max_of_le_left (sq_nonneg _)) n
+    calc ‖gdIter g γ (n + 1) x - gdIter g γ (n + 1) y‖ ^ 2
+        = ‖gdIter g γ n (x - γ • g x) - gdIter g γ n (y - γ • g y)‖ ^ 2 := rfl
+      _ ≤ max ((1 - γ * μ) ^ 2) ((1 - γ * L) ^ 2) ^ n * ‖(x - γ • g x) - (y - γ • g y)‖ ^ 2 := h1
+      _ ≤ max ((1 - γ * μ) ^ 2) ((1 - γ * L) ^ 2) ^ n
+            * (max ((1 - γ * μ) ^ 2) ((1 - γ * L) ^ 2) * ‖x - y‖ ^ 2) := mul_le_mul_of_nonneg_left h2 hρ
+      _ = max ((1 - γ * μ) ^ 2) ((1 - γ * L) ^ 2) ^ (n + 1) * ‖x - y‖ ^ 2 := by ring
+
+/-- in particular the distance to a minimiser (`g x⋆ = 0`) contracts at that rate: the statement of the
+example (`‖x_n − x⋆‖² ≤ ρⁿ ‖x_0 − x⋆‖²`) -/
+theorem gd_distance_to_optimum (f : E → ℝ) (g : E → E) (μ L γ : ℝ) (hμ : 0 < μ) (hμL : μ < L) (hγ : 0 ≤ γ)
+    (hconv : ∀ x y, f y ≥ f x + ⟪g x, y - x⟫ + μ / 2 * ‖y - x‖ ^ 2)
+    (hsm : ∀ x y, f y ≤ f x + ⟪g x, y - x⟫ + L / 2 * ‖y - x‖ ^ 2) (xs : E) (hxs : g xs = 0) (n : Nat) (x : E) :
+    ‖gdIter g γ n x - xs‖ ^ 2 ≤ max ((1 - γ * μ) ^ 2) ((1 - γ * L) ^ 2) ^ n * ‖x - xs‖ ^ 2 := by
+  have hfix : ∀ n, gdIter g γ n xs = xs := by
+    intro n; induction n with
+    | zero => rfl
+    | succ n ih => simp [gdIter, hxs, ih]
+  have := gd_contraction_n f g μ L γ hμ hμL hγ hconv hsm n x xs
+  rwa [hfix n] at this
+
 end Pepit.C10
 
 #print axioms Pepit.C10.gd_contraction_upper
+#print axioms Pepit.C10.gd_contraction_n
